@@ -93,6 +93,7 @@ package internal
 //@   ensures [C03,C15] no-user-function-runs-on-the-calling-goroutine: noUserFunctionOnCaller
 //@   ensures [C15] arguments-hoisted-once-in-source-order-before-generated-code: hoistedAssignedOnce && hoistOrdered && hoistBeforeGenerated
 //@   ensures [C02,C12] shared-cells-have-a-single-writer-and-distinct-types: singleWriter && cellTypesDistinct
+//@   ensures [C12] ran-flag-is-atomic: ranIsAtomic
 //@   ensures [C01,C12] every-reader-depends-on-the-writer-of-what-it-reads: implies(waitCalled, depsCoverReaders)
 //@   ensures [C11] jobs-depend-only-on-providers-of-their-inputs: implies(waitCalled, depsOnlyProviders)
 //@   ensures [C02,C05,C06] every-job-enqueued-once-and-wait-called: waitCalled && everyJobEnqueuedOnce
@@ -111,6 +112,7 @@ package internal
 //@   ensures [C03,C15] no-user-function-runs-on-the-calling-goroutine: noUserFunctionOnCaller
 //@   ensures [C15] arguments-hoisted-once-in-source-order-before-generated-code: hoistedAssignedOnce && hoistOrdered && hoistBeforeGenerated
 //@   ensures [C12] no-shared-cells-written-twice: singleWriter
+//@   ensures [C12] ran-flag-is-atomic: ranIsAtomic
 //@   ensures [C10,C05,C06] every-job-enqueued-once-and-wait-called: waitCalled && everyJobEnqueuedOnce
 //@   ensures [C09] directive-context-passed-to-enqueue-and-wait: directiveCtxEverywhere
 //@   ensures [C08,C03] scheduler-params-are-the-hoisted-arguments: schedParamsOK
